@@ -146,6 +146,8 @@ CORPUS = [
     ("zero", b"b", [], CRLF),
     ("noepi", b"b", [([b"A: 1"], b"x")], b""),
     ("epi", b"b", [([b"A: 1"], b"y")], b"\r\nepi\r\n--b\r\n"),
+    # an epilogue that looks like a part: a header line, an empty line, text (ignored by the grammar; since seed C06-j)
+    ("epi-blank", b"b", [([b"A: 1"], b"y")], b"\r\nE: 1\r\n\r\nzz\r\n"),
     ("crlf-data", b"b", [([b"A: 1"], b"\r\r\n-\r\n--\r\n-b\r\n--\r"), ([b"A: 1"], b"\r\n")], CRLF),
     ("hyph-bound", b"b-b", [([b"A: 1"], b"\r\n--b-\r\n--b"), ([b"Z:"], b"--b-b")], CRLF),
     ("dash-bound", b"--", [([b"A: 1"], b"-\r\n---"), ([b"A: 1"], b"\r\n--")], CRLF),
